@@ -155,6 +155,7 @@ class Project:
                 tree = ast.parse(src, filename=rel)
             except SyntaxError as exc:
                 raise AnalysisError(f"cannot parse {rel}: {exc}") from exc
+            tree = canonicalise(tree)
             modname = rel[:-3].replace("/", ".")
             if modname.endswith(".__init__"):
                 modname = modname[: -len(".__init__")]
@@ -430,3 +431,115 @@ def effective_body(stmts):
     """The statements of a body without noise (see is_noise); a body that is only noise keeps its last statement."""
     out = [s for s in stmts if not is_noise(s)]
     return out if out or not stmts else [stmts[-1]]
+
+
+class _Canon(ast.NodeTransformer):
+    """Semantics-preserving normal form applied to every module before any rule sees it, so that two spellings of the same
+    code give the same verdict:
+      * `t = E` immediately followed by `return t`, (t not read in a finally, not captured, not global)  ->  `return E`
+      * `if not C: A else: B` with both branches non-empty                                          ->  `if C: B else: A`
+      * `if C: ...return/raise/continue/break` with an else branch                                  ->  the else branch follows the if
+    Line numbers of the surviving nodes are kept."""
+
+    def _blocked(self, fn):
+        """Names whose assignment cannot be folded into a following return: read in a `finally`, captured by a nested function
+        or lambda, or declared global / nonlocal."""
+        out = set()
+        for n in ast.walk(fn):
+            if isinstance(n, (ast.Global, ast.Nonlocal)):
+                out.update(n.names)
+            elif n is not fn and isinstance(n, (ast.FunctionDef, ast.AsyncFunctionDef, ast.Lambda)):
+                out.update(x.id for x in ast.walk(n) if isinstance(x, ast.Name))
+            elif isinstance(n, ast.Try):
+                for st in n.finalbody:
+                    out.update(x.id for x in ast.walk(st) if isinstance(x, ast.Name))
+        return out
+
+    def _fold_body(self, body, blocked):
+        out = []
+        i = 0
+        while i < len(body):
+            st = body[i]
+            nxt = body[i + 1] if i + 1 < len(body) else None
+            if (isinstance(st, ast.Assign) and len(st.targets) == 1 and isinstance(st.targets[0], ast.Name) and isinstance(nxt, ast.Return)
+                    and isinstance(nxt.value, ast.Name) and nxt.value.id == st.targets[0].id and st.targets[0].id not in blocked):
+                out.append(ast.copy_location(ast.Return(value=st.value), st))
+                i += 2
+                continue
+            out.append(st)
+            i += 1
+        return out
+
+    @classmethod
+    def _terminates(cls, body) -> bool:
+        """Does control never fall out of the end of this statement list?"""
+        if not body:
+            return False
+        last = body[-1]
+        if isinstance(last, (ast.Return, ast.Raise, ast.Continue, ast.Break)):
+            return True
+        if isinstance(last, ast.If):
+            return bool(last.orelse) and cls._terminates(last.body) and cls._terminates(last.orelse)
+        if isinstance(last, ast.Try):
+            if last.finalbody and cls._terminates(last.finalbody):
+                return True
+            main = cls._terminates(last.orelse) if last.orelse else cls._terminates(last.body)
+            return main and all(cls._terminates(h.body) for h in last.handlers)
+        if isinstance(last, ast.With):
+            return cls._terminates(last.body)
+        return False
+
+    @staticmethod
+    def _negate(t):
+        return t.operand if isinstance(t, ast.UnaryOp) and isinstance(t.op, ast.Not) else ast.copy_location(ast.UnaryOp(op=ast.Not(), operand=t), t)
+
+    def _hoist_else(self, body):
+        """Two-branch ifs in normal form:
+          * the `if` body never falls through            -> the else branch follows the if (`no else after return`)
+          * only the else branch never falls through     -> test negated, branches swapped, then as above
+          * both branches fall through                   -> a leading `not` of the test is removed by swapping the branches
+        (An if/else whose branches BOTH never fall through keeps its orientation: `if C: return a / return b` and
+        `if not C: return b / return a` stay two different spellings.)"""
+        out = []
+        for st in body:
+            if isinstance(st, ast.If) and st.body and st.orelse:
+                tb, te = self._terminates(st.body), self._terminates(st.orelse)
+                if te and not tb:
+                    st.test, st.body, st.orelse = self._negate(st.test), st.orelse, st.body
+                    tb, te = True, False
+                elif not tb and not te and isinstance(st.test, ast.UnaryOp) and isinstance(st.test.op, ast.Not):
+                    st.test, st.body, st.orelse = st.test.operand, st.orelse, st.body
+                if tb:
+                    tail = st.orelse
+                    st.orelse = []
+                    out.append(st)
+                    out.extend(self._hoist_else(tail))
+                    continue
+            out.append(st)
+        return out
+
+    def _canon_fn(self, node):
+        cnt = self._blocked(node)
+        for sub in ast.walk(node):
+            if sub is not node and isinstance(sub, (ast.FunctionDef, ast.AsyncFunctionDef, ast.Lambda, ast.ClassDef)):
+                continue
+            for f in ("body", "orelse", "finalbody"):
+                b = getattr(sub, f, None)
+                if isinstance(b, list) and b and isinstance(b[0], ast.stmt):
+                    setattr(sub, f, self._fold_body(self._hoist_else(b), cnt))
+            if isinstance(sub, ast.Try):
+                for h in sub.handlers:
+                    h.body = self._fold_body(self._hoist_else(h.body), cnt)
+
+    def visit_FunctionDef(self, node):
+        self.generic_visit(node)
+        self._canon_fn(node)
+        return node
+
+    visit_AsyncFunctionDef = visit_FunctionDef
+
+
+def canonicalise(tree):
+    for _ in range(3):  # hoisting and flipping enable each other; three rounds reach the fixpoint on nested ifs
+        tree = _Canon().visit(tree)
+    return ast.fix_missing_locations(tree)
